@@ -296,6 +296,17 @@ class MapperIdentify:
     def pre_invariant(self):
         return nodes_duplicate_free(self)
 
+    def pre_distinct_tables(self):
+        """the node table and the stereotype table are two dict objects (created separately by the constructor)"""
+        return self.nodes is not self.stereotypes
+
+    def post_invariant_for_the_machine(self, payload):
+        """the list of the machine the instance is filed under stays duplicate-free"""
+        m = self._instances[payload['identifier']].remote_view.machine_id
+        return implies(m in self.nodes,
+                       forall(int, int, lambda a, b: implies(0 <= a and a < b and b < len(self.nodes[m]),
+                                                             self.nodes[m][a] != self.nodes[m][b])))
+
     def post_filed_once(self, payload, old):
         """the invariant survives the append iff a handshake of an instance that is already filed under its machine does
         not add a second entry (stated in this quantifier-light form so that the solver decides it either way)"""
